@@ -14,6 +14,8 @@ def run(tier, seed):
     for r in ac.real_family_cases(rng, 3 if q else 15, 3, annotate=True, refs=True):
         r["repeat"] = True
         r["roundtrip"] = True
+        if rng.random() < 0.4:
+            r["prequery"] = True        # overhangs / targets queried on the same wrappers before assembling
         recipes.append(r)
     traces = ac.validate(run, "cited-assemblies", recipes)
     run.extra["inputs_with_references"] = sum(1 for t in traces for x in [t[0]["vec"]] + t[0]["mods"] if x["refs"])
